@@ -35,7 +35,20 @@ RULE = ('Integer index triples are ENUMERATED EXHAUSTIVELY in [-4,4]^3 minus 0 (
         'normal and 2e9 otherwise) and inside a case run all 12 index-taking entry points x 5 leading shapes ((3,), (1,3), '
         '(N,3), (M,N,3), (1,1,3)) with the memory layout rotating over C / Fortran / strided (first, last axis) / negative '
         'strides / index axis slowest / read-only / byte-swapped; each result is compared with the int64 C-contiguous call '
-        'and with the oracle. A case is non-trivial when it evaluates the full enumerated set (cells/index/centring/reduce) '
+        'and with the oracle. ORIENTED cases: every crystal family (cubic included) x 6 orientation classes off the Cartesian '
+        'axes (generic rotation, 45 deg about z, 120 deg about the body diagonal, signed axis permutation, small angle, rotation '
+        'about x) x 3 length scales, the whole enumerated set through plane normal and direction (oracle, zone law between the '
+        'two returned arrays, covariance with the axis-aligned cell, four-index forms for hexagonal). HISTORY cases: 18 entry '
+        'points (fromstring, the four 3<->4 conversions, both centring maps, reduce 3/4, direction and plane normal as function '
+        'and as Box method with 3 and 4 indices, all_indices, family identification on Box and in tools.crystalsystem) x rounds; '
+        'inside a case 3 leading shapes x argument presentations (fresh float64 / int64 / int32 arrays, nested lists) run one '
+        'history each: call, use the result in place (7 kinds: *= 2, negate, zero, fill nan/min, normalise, += 1, double + '
+        'read-only), call again with an equal / the same argument object, interleave look-alike arguments (other values of the '
+        'same shape, other element type, other shape, the same buffer read with the other row width; other Box with the same '
+        'lattice parameters in another orientation, scaled, other cell; other centring setting; strings with regrouped digits, '
+        'other fraction / bracket / spacing / sign / number of terms; other maxindex / reduce flag; cells of other families sharing '
+        'the edge lengths), reuse the argument object for the opposite indices, re-set the same Box object and set it back, build '
+        'short-lived Box objects one after the other. A case is non-trivial when it evaluates the full enumerated set (cells/index/centring/reduce) '
         'or a string/cell whose random numbers are drawn inside the class; distinct = distinct fingerprint of the '
         'concrete inputs.')
 ASSUMPTIONS = ['cells are right-handed with volume >= 10% of a*b*c (condition number < ~1e2)',
@@ -49,6 +62,15 @@ ASSUMPTIONS = ['cells are right-handed with volume >= 10% of a*b*c (condition nu
                'magnitudes are capped so that every exact result fits int64 and a double (plane normal |index| <= 2000, others <= 2e9)',
                'a narrow float element type (float16/float32) bounds the accuracy of vector3to4 (division by 3) by its own round-off; '
                'reduce_indices refuses float element types (documented: "An array of ints"), counted as refusals',
+               'histories: between two calls the caller may do anything to arrays it was handed (results) or owns (arguments), and may '
+               're-set a Box through its documented setters (Box.set, Box.vects); every call is then judged on the values its arguments hold '
+               'at the time of the call. A returned array that is read-only is not counted as a violation (it cannot be used in place)',
+               'one Box object given the lattice parameters of another family through Box.set(a=..,b=..,c=..,alpha=..,beta=..,gamma=..) '
+               '(the call every family constructor makes) is a cell built as that family',
+               'turned cells (vects @ R.T, R a proper rotation) are in the quantifier of the conversion clauses (right-handed cells of every '
+               'family); for the family-identification clause they are only used as reach evidence (the predicate is counted, not judged)',
+               'the centring matrices used as reference by the histories are measured once at start-up and verified from the definition of '
+               'the centred lattice (rows are lattice translations, det = 1 / lattice points per cell, C = inverse of P)',
                'oracle shares numpy/LAPACK with the code under test']
 
 # thorough: 16 shards x 3 seeds; ~35 CPU-min in total, so a generous per-worker watchdog for a loaded machine
